@@ -49,11 +49,17 @@ def plan(tier):
 class UEnv:
     """Env + tags + index lists for the confinement oracle."""
 
-    def __init__(self, memsys, secure, regfile):
+    def __init__(self, memsys, secure, regfile, masks=False):
         self.env = env = sweep.Env(memsys, None, secure)
         self.memsys = memsys
-        self.label = "%s/%s/%s" % (memsys, "secure" if secure else "non-secure", regfile)
+        self.label = "%s/%s/%s%s" % (memsys, "secure" if secure else "non-secure", regfile, "/AW+FW+NMFI" if masks else "")
         regs = env.cpu.registers
+        if masks:
+            # the bits that gate mask writes for PRIVILEGED code must not open anything to User mode
+            regs.scr.aw = 1
+            regs.scr.fw = 1
+            regs.sctlr.nmfi = 1
+            env.bases.clear()
         base = env.base("usr", regfile)
         env.plan.restore(base)
         # distinct tags in every other bank and SPSR
@@ -151,6 +157,7 @@ def one(res, ue, word, thumb, olen, it, what):
 
 def t16(res, blk):
     ues = [UEnv(ms, sec, rf) for ms in ("mpu-off", "mpu-on") for sec in (True, False) for rf in ("ram", "wild")]
+    ues += [UEnv("mpu-off", True, "ram", True), UEnv("mpu-on", False, "ram", True)]
     for ue in ues:
         for w in range(blk * 1024, (blk + 1) * 1024):
             if (w >> 11) in (0b11101, 0b11110, 0b11111):
@@ -163,7 +170,7 @@ def t16(res, blk):
 
 def lazy32(res, kind, cube, cap, tier):
     thumb = kind == "t32"
-    ues = [UEnv("mpu-off", True, "ram"), UEnv("mpu-on", False, "wild")]
+    ues = [UEnv("mpu-off", True, "ram"), UEnv("mpu-on", False, "wild", True)]
     cpu = ues[0].env.cpu
     its = [0] if not thumb else [0, 0x08]
     for it in its:
@@ -231,15 +238,17 @@ def unpriv(res):
         regs.dracrs[1].ap = ap
         env.bases.clear()
         for mode in ("svc", "fiq", "irq", "abt", "und", "sys", "mon"):
+          for off in (0, 1, 2, 3):
             env.plan.restore(env.base(mode, "ram"))
             for n in range(15):
-                regs.set(n, isa.DATA + 0x40 + 8 * n)      # every base register points into the protected window
+                # every base register points into the protected window; unaligned bases exercise the byte-wise path
+                regs.set(n, isa.DATA + 0x40 + 8 * n + off)
             env.plan.reset_scratch()
             base = env.plan.snapshot()
             for t, olen, w, cname in words:
                 for it in ([0] if not t else [0, 0x08]):
                     res.cases += 1
-                    res.add_state(hash((ap, mode, w, it)))
+                    res.add_state(hash((ap, mode, w, it, off)))
                     out = sweep.step_word(env, base, w, bool(t), olen, it)
                     res.transitions += 1
                     if out[0] != "ok":
